@@ -91,9 +91,22 @@ def buffered_reader(ctx, R, roles, T, rule="BUF"):
                 R.fail(rule, q + "|buffer-written", "the receive buffer is also modified at `%s`" % norm_stmt(n.ast), f.loc(n.ast))
     # loop governed by len(buf) < size
     bk, sk = key(_len(_mk(buf))), key(ast.Name(id=size, ctx=ast.Load()))
+    from ..util import lin_ast, lin_add
+    from .c06 import eval_dump
+    missing = ({size: 1, "LEN": -1}, 0)          # size - len(buffer)
+
+    def refill_done(fa):
+        if fa[0][0] != "lt" or fa[1] is not False:
+            return False
+        try:
+            a_, b_ = eval_dump(fa[0][1]), eval_dump(fa[0][2])
+        except Exception:   # noqa
+            return False
+        la, lb = lin_ast(a_, buf), lin_ast(b_, buf)
+        return la is not None and lb is not None and lin_add(lb, la, -1) == missing      # not (a < b) with b - a == size - len(buffer)
     for (m, d, l) in loop_exit_edges(g, head):
         have = set(df.facts(m)) | df.edge_facts(m, l)
-        ok = any(fa[0] == ("lt", bk, sk) and fa[1] is False for fa in have)
+        ok = any(fa[0] == ("lt", bk, sk) and fa[1] is False for fa in have) or any(refill_done(fa) for fa in have)
         R.check(ok, rule, "%s|exit|%s" % (q, norm_stmt(m.ast) if m.ast is not None else m.kind), "the refill loop ends only when len(buffer) >= size",
                 "the refill loop can end at `%s` before the buffer holds `size` bytes: a record is returned short" % (norm_stmt(m.ast) if m.ast is not None else m.kind), f.loc(m.ast))
     for n in g.nodes:
@@ -239,6 +252,13 @@ def record_reader(ctx, R, roles, T, rule="REC"):
             cases = [(rt0, None)]
             if rt0[0] == "ite":
                 cases = [(rt0[2], (rt0[1], True)), (rt0[3], (rt0[1], False))]
+            elif rt0[0] == "tuple":
+                # the same decision taken element by element: (id, fields-if-c-else-fields', data-if-c-else-data')
+                conds = set(x[1] for x in rt0[1:] if x[0] == "ite")
+                if len(conds) == 1:
+                    c_ = next(iter(conds))
+                    pick = lambda arm: ("tuple",) + tuple((x[2] if arm else x[3]) if x[0] == "ite" else x for x in rt0[1:])   # noqa: E731
+                    cases = [(pick(True), (c_, True)), (pick(False), (c_, False))]
             for rt, guard in cases:
                 sub = "%s|%s%s" % (q, norm_stmt(rn.ast), "" if guard is None else "|case-%s" % guard[1])
                 if not (rt[0] == "tuple" and len(rt) == 4):
